@@ -1,14 +1,26 @@
 #!/bin/bash
 # Re-runs every kept seeded change against the checks that are recorded as catching it
 # (quick tier, scratch worktree, output redirected).  Writes /verif/seeded/REGRESSION.txt.
+# usage: regress_seeded.sh [--no-tests] [--no-demo] [--only <regex on the seed id>] [--out <file>]
 cd /verif
-OUT=/verif/seeded/REGRESSION.txt
+NT=""; ND=""; ONLY="."; OUT=/verif/seeded/REGRESSION.txt
+while [ $# -gt 0 ]; do
+  case "$1" in
+    --no-tests) NT="--no-tests";;
+    --no-demo) ND=1;;
+    --only) ONLY="$2"; shift;;
+    --out) OUT="$2"; shift;;
+  esac
+  shift
+done
 : > $OUT.tmp
 for d in seeded/*/; do
   id=$(basename $d)
   [ -f $d/patch.diff ] || continue
-  checks=$(/venv/bin/python -c "import json;print(','.join(json.load(open('$d/meta.json'))['caught_by']))")
-  res=$(tools/try_mutant.sh $d/patch.diff $d/demo.py "$checks" quick ${1:-} 2>&1 | grep -E "^DEMO|^TESTS|^CHECK" | tr '\n' ';' | cut -c1-600)
+  echo "$id" | grep -Eq "$ONLY" || continue
+  checks=$(/venv/bin/python -c "import json;m=json.load(open('$d/meta.json'));print(','.join(m['caught_by']) or m['property'])")
+  demo=$d/demo.py; [ -n "$ND" ] && demo="-"
+  res=$(tools/try_mutant.sh $d/patch.diff $demo "$checks" quick $NT 2>&1 | grep -E "^DEMO|^TESTS|^CHECK|^RESULT" | tr '\n' ';' | cut -c1-600)
   echo "$id | $res" >> $OUT.tmp
 done
 mv $OUT.tmp $OUT
